@@ -17,12 +17,13 @@ DevCanonUnfolded == {"CanonicalNameNotFolded"}
 (* ---------------- the namespace table of a site as the constant ---------------- *)
 (* S_* configurations take the atom tables from a namespace table (PageStore.tla,   *)
 (* Ns* operators).  The table comes from the file named by the environment variable *)
-(* NS_FILE: the harness writes the namespace table of one shipped language          *)
-(* configuration there (entries as the real context holds them, the letter-case     *)
-(* facts of the prefix spellings, the namespaces to exercise).  Without NS_FILE     *)
-(* the built-in excerpt of the English table is used: Project/Wiktionary and        *)
-(* Project talk/Wiktionary talk are the namespaces whose local name differs from    *)
-(* the canonical one there.                                                         *)
+(* NS_FILE: the harness writes the namespace tables of shipped language             *)
+(* configurations there (a sequence of sites: entries as the real context holds     *)
+(* them, the letter-case facts of the prefix spellings, the namespaces to exercise, *)
+(* the history bound).  Without NS_FILE the built-in excerpt of the English table   *)
+(* is used: Project/Wiktionary and Project talk/Wiktionary talk are the namespaces  *)
+(* whose local name differs from the canonical one there.  The S_ configurations    *)
+(* bind the constants of PageStore to the FIRST site; Gen_PageStore_M walks all.    *)
 B_Tab == << NsEntry(0, "Main", "Main", <<>>),
             NsEntry(4, "Project", "Wiktionary", <<"WT">>),
             NsEntry(5, "Project talk", "Wiktionary talk", <<>>),
@@ -34,8 +35,11 @@ B_Fold == ("Wiktionary:" :> "wiktionary:") @@ ("wiktionary:" :> "wiktionary:") @
           ("Project talk:" :> "project talk:") @@ ("PROJECT TALK:" :> "project talk:") @@
           ("Project_talk:" :> "project talk:") @@
           ("Template:" :> "template:") @@ ("template:" :> "template:") @@ ("T:" :> "t:") @@ ("t:" :> "t:")
-Site == IF "NS_FILE" \in DOMAIN IOEnv THEN JsonDeserialize(IOEnv.NS_FILE)
-        ELSE [nstab |-> B_Tab, fold |-> B_Fold, namespaces |-> <<4, 5>>]
+SiteFile == IF "NS_FILE" \in DOMAIN IOEnv THEN JsonDeserialize(IOEnv.NS_FILE)
+            ELSE [sites |-> << [lang |-> "en (excerpt)", nstab |-> B_Tab, fold |-> B_Fold,
+                                namespaces |-> <<4, 5>>, maxlen |-> 2] >>]
+Sites == SiteFile.sites
+Site == Sites[1]
 S_Tab == {Site.nstab[i] : i \in 1..Len(Site.nstab)}
 S_Fold == Site.fold
 \* (TLC re-evaluates the body of a definition that a cfg substitutes for a CONSTANT at every
@@ -46,7 +50,6 @@ S_NamespacesV == {Site.namespaces[i] : i \in 1..Len(Site.namespaces)}
 S_PfxNs == S_PfxNsV
 S_Namespaces == S_NamespacesV
 S_CanonPfx == S_CanonPfxV
-S_Entry(ns) == CHOOSE e \in S_Tab : e.id = ns
 
 CONSTANTS Namespaces, Bases, Bodies, MaxLen, LookupPfx, WithUnderscore, WithNoNs, NrSet
 
@@ -81,48 +84,63 @@ PfxAtom(ns, kind) ==
     [] ns = 828 /\ kind = "alias" -> "MOD:"
     [] ns = 828 /\ kind = "aliaslower" -> "mod:"
 
-PfxAtomsOf(ns) ==
-  {PfxAtom(ns, k) : k \in LookupPfx \ {"none", "table"}} \cup
-  (IF "table" \in LookupPfx THEN {p \in DOMAIN PfxNs : PfxNs[p] = ns} ELSE {})
+PfxAtomsOf(ns) == {PfxAtom(ns, k) : k \in LookupPfx \ {"none", "table"}}
 
 (* titles as written by callers *)
-Stored(ns, b) == IF ns = 0 THEN b ELSE <<CanonPfx[NsKey(ns)]>> \o b
-AddSpellings(ns, b) == IF ns = 0 THEN {b} ELSE {b, Stored(ns, b)}
+StoredP(ns, b, canon) == IF ns = 0 THEN b ELSE <<canon[NsKey(ns)]>> \o b
+Stored(ns, b) == StoredP(ns, b, CanonPfx)
+AddSpellingsP(ns, b, canon) == IF ns = 0 THEN {b} ELSE {b, StoredP(ns, b, canon)}
+AddSpellings(ns, b) == AddSpellingsP(ns, b, CanonPfx)
 Underscored(t) == [i \in 1..Len(t) |-> IF t[i] = "SP" THEN "US" ELSE t[i]]
 LowerFirstOf(b) == [b EXCEPT ![1] = IF b[1] = "F" THEN "f" ELSE b[1]]
 
 LookupBases == Bases \cup {LowerFirstOf(b) : b \in Bases}
+WithUnderscores(plain) == plain \cup (IF WithUnderscore THEN {Underscored(t) : t \in plain} ELSE {})
+
+(* the universe over a namespace table ("table" \in LookupPfx): parameterised by the atom  *)
+(* tables so that one run can walk several sites                                           *)
+\* every prefix atom of the spelling universe that names the namespace
+SiteAtoms(ns, pfxns) == {p \in DOMAIN pfxns : pfxns[p] = ns}
+SiteSpellings(ns, pfxns) ==
+  WithUnderscores(LookupBases \cup
+                  (IF ns = 0 THEN {} ELSE {<<p>> \o b : p \in SiteAtoms(ns, pfxns), b \in LookupBases}))
+SiteEntry(tab, ns) == CHOOSE e \in tab : e.id = ns
+\* redirects are written with the canonical name (the spelling every site understands) when that
+\* is another name than the stored one, and never lead to the page itself
+SiteRedirectTargets(ns, tab, canon) ==
+  IF ns # 0 /\ SiteEntry(tab, ns).canonical # SiteEntry(tab, ns).local
+  THEN {<<NsPfxAtom(SiteEntry(tab, ns).canonical)>> \o b : b \in Bases}
+  ELSE {StoredP(ns, b, canon) : b \in Bases}
+SiteIsRedirectOf(tgt, ns, b, tab, canon) ==
+  /\ tgt \in SiteRedirectTargets(ns, tab, canon)
+  /\ tgt # StoredP(ns, b, canon)
+  /\ (ns # 0 => Tail(tgt) # b)
+\* every spelling is looked up under its own namespace, and the plain and stored spellings under
+\* every namespace (a prefix atom with an underscore inside is only defined as the prefix of its
+\* own namespace)
+SiteArgSet(nss, pfxns, canon) ==
+  LET crossT == UNION {{b, StoredP(n, b, canon)} : n \in nss, b \in LookupBases} IN
+  {Args(t, ns, nr) : t \in crossT, ns \in (nss \cup IF WithNoNs THEN {NoNs} ELSE {}), nr \in NrSet}
+  \cup UNION {{Args(t, ns, nr) : t \in SiteSpellings(ns, pfxns), nr \in NrSet} : ns \in nss}
+
 LookupSpellings(ns) ==
-  LET plain == {b : b \in LookupBases} \cup
-               (IF ns = 0 THEN {} ELSE
-                  {<<p>> \o b : p \in PfxAtomsOf(ns), b \in LookupBases})
-  IN plain \cup (IF WithUnderscore THEN {Underscored(t) : t \in plain} ELSE {})
+  IF "table" \in LookupPfx THEN SiteSpellings(ns, PfxNs)
+  ELSE WithUnderscores(LookupBases \cup
+                       (IF ns = 0 THEN {} ELSE {<<p>> \o b : p \in PfxAtomsOf(ns), b \in LookupBases}))
 
-\* redirects are written with the stored prefix; over a namespace table with the canonical
-\* name instead (the spelling every site understands) when that is another name, and never
-\* to the page itself
 RedirectTargets(ns) ==
-  IF "table" \in LookupPfx /\ ns # 0 /\ S_Entry(ns).canonical # S_Entry(ns).local
-  THEN {<<NsPfxAtom(S_Entry(ns).canonical)>> \o b : b \in Bases}
-  ELSE {Stored(ns, b) : b \in Bases}
+  IF "table" \in LookupPfx THEN SiteRedirectTargets(ns, S_Tab, CanonPfx) ELSE {Stored(ns, b) : b \in Bases}
 IsRedirectOf(tgt, ns, b) ==
-  /\ tgt \in RedirectTargets(ns)
-  /\ tgt # Stored(ns, b)
-  /\ ("table" \in LookupPfx /\ ns # 0 => Tail(tgt) # b)
+  IF "table" \in LookupPfx THEN SiteIsRedirectOf(tgt, ns, b, S_Tab, CanonPfx)
+  ELSE tgt \in RedirectTargets(ns) /\ tgt # Stored(ns, b)
 
-\* over a namespace table every spelling is looked up under its own namespace, and the stored
-\* spellings under every other one (a prefix atom with an underscore inside is only defined
-\* as the prefix of its own namespace)
 ArgSet ==
-  (IF "table" \in LookupPfx
-   THEN {Args(t, ns, nr) : t \in UNION {{b, Stored(n, b)} : n \in Namespaces, b \in LookupBases},
-                           ns \in Namespaces, nr \in NrSet}
-        \cup UNION {{Args(t, ns, nr) : t \in LookupSpellings(ns), nr \in NrSet} : ns \in Namespaces}
-   ELSE {Args(t, ns, nr) : t \in UNION {LookupSpellings(n) : n \in Namespaces}, ns \in Namespaces, nr \in NrSet})
-  \cup (IF WithNoNs
-        THEN {Args(t, NoNs, nr) : t \in UNION {{b, Stored(n, b)} : n \in Namespaces, b \in LookupBases},
-                                  nr \in NrSet}
-        ELSE {})
+  IF "table" \in LookupPfx THEN SiteArgSet(Namespaces, PfxNs, CanonPfx)
+  ELSE {Args(t, ns, nr) : t \in UNION {LookupSpellings(n) : n \in Namespaces}, ns \in Namespaces, nr \in NrSet}
+       \cup (IF WithNoNs
+             THEN {Args(t, NoNs, nr) : t \in UNION {{b, Stored(n, b)} : n \in Namespaces, b \in LookupBases},
+                                       nr \in NrSet}
+             ELSE {})
 
 (* ---------------- exhaustive, history-free exploration ---------------- *)
 DoAdd ==
